@@ -1,6 +1,7 @@
 import CoxeterVerif.Driver.Proto
 import CoxeterVerif.Model.ConvexPolyhedron
 import CoxeterVerif.Spec.Solid
+import CoxeterVerif.Model.ChainCheck
 
 namespace OpsC01
 
@@ -24,6 +25,23 @@ def run (α : Type) [Scalar α] [Codec α] (op : String) (c : Ctx) : Option (Rd 
       let Ts : List (Tet α) ← Rd.list c (Rd.tet c)
       let m := Spec.second Ts
       pure s!"{Out.sc (Spec.vol Ts)} {Out.v3 (Spec.first Ts)} {Out.sc (m 0 0)} {Out.sc (m 0 1)} {Out.sc (m 0 2)} {Out.sc (m 1 1)} {Out.sc (m 1 2)} {Out.sc (m 2 2)} {Out.m3 (Spec.inertia Ts)} {Out.v3 (Spec.centroid Ts)}"
+  | "chain.check" => some do
+      -- in: tris S, tets Ts ; out: chainCheck(S, boundary of Ts)  closedCheck(S)  nondegCheck(S)  Spec.vol Ts
+      -- (use Q mode: the hypotheses of `cp_measures_exact_checked`, decided exactly)
+      let S : List (Tri α) ← Rd.list c (Rd.tri c)
+      let Ts : List (Tet α) ← Rd.list c (Rd.tet c)
+      let ok := ChainCheck.chainCheck S (Ts.flatMap Tet.bdry)
+      pure s!"{Out.bool ok} {Out.bool (ChainCheck.closedCheck S)} {Out.bool (ChainCheck.nondegCheck S)} {Out.sc (Spec.vol Ts)}"
+  | "chain.eq" => some do
+      -- in: tris S, tris T ; out: chainCheck(S, T)
+      let S : List (Tri α) ← Rd.list c (Rd.tri c)
+      let T : List (Tri α) ← Rd.list c (Rd.tri c)
+      pure (Out.bool (ChainCheck.chainCheck S T))
+  | "chain.cone" => some do
+      -- in: tris S, apex p ; out: chainCheck(S, boundary of cone p S)
+      let S : List (Tri α) ← Rd.list c (Rd.tri c)
+      let p : V3 α ← Rd.v3 c
+      pure (Out.bool (ChainCheck.chainCheck S ((ChainCheck.cone p S).flatMap Tet.bdry)))
   | _ => none
 
 end OpsC01
